@@ -13,7 +13,7 @@ checks = []
 for pid in ALL:
     if pid not in props.SPECS:
         continue
-    meta = mm.META[pid]
+    meta = props.META[pid]
     checks.append({
         "property_id": pid,
         "quick_cmd": "./check %s quick" % pid,
@@ -25,7 +25,7 @@ for pid in ALL:
         "level_note": meta["note"],
         "technique": meta["technique"],
     })
-na = [{"property_id": pid, "reason": mm.NOT_APPLICABLE.get(pid, "check not built yet in this session (work in progress; claimed once its model, theorems and correspondence engine exist)")}
+na = [{"property_id": pid, "reason": props.NOT_APPLICABLE.get(pid, "check not built yet in this session (work in progress; claimed once its model, theorems and correspondence engine exist)")}
       for pid in ALL if pid not in props.SPECS]
 engines = {}
 for pid, s in props.SPECS.items():
@@ -42,7 +42,7 @@ man = {
         "source_commits": mm.HOOK_COMMITS,
         "add_only": True,
     },
-    "engines": [{"name": e, "path": "harness/engines", "serves_properties": sorted(p), "kind_free_text": mm.ENGINE_TEXT.get(e, "")}
+    "engines": [{"name": e, "path": "harness/engines", "serves_properties": sorted(p), "kind_free_text": props.ENGINE_TEXT.get(e, "")}
                 for e, p in sorted(engines.items())],
     "checks": checks,
     "not_applicable": na,
